@@ -1,7 +1,9 @@
 import NfpmModel.Lemmas.ArchiveLemmas
 import NfpmModel.Lemmas.ArLemmas
 import NfpmModel.Lemmas.TarLemmas
+import NfpmModel.Lemmas.PaxLemmas
 import NfpmModel.Lemmas.CpioLemmas
+import NfpmModel.Digest
 import NfpmModel.Props.C05
 import NfpmModel.Generated.G8WriteTgz
 import NfpmModel.Generated.G7Accepted
@@ -32,7 +34,7 @@ set_option linter.unusedSimpArgs false
 set_option linter.unusedVariables false
 
 namespace Nfpm.Props.C04
-open Nfpm B Path Spec Arc
+open Nfpm B Path Spec Arc Dig
 
 /-! ### apk segments -/
 
@@ -221,6 +223,51 @@ theorem tar_archive_shape (ms : List Tar.Member) :
   have := this ms
   omega
 
+/-- what a logical member with extension records must satisfy to be expressible: the ordinary member fits a plain
+    header, it is not itself an extension member, no key contains '=', and the record block fits the size field -/
+structure PaxOK (m : Tar.PMember) : Prop where
+  main : Tar.MemberOK { hdr := m.hdr, body := m.body }
+  logical : Tar.PMemberOK m
+  recordsFit : (Tar.paxBody m.pax).length < 8 ^ 11
+
+/-- **apk / archlinux streams with PAX extension records are well-formed**: archive/tar writes a member that carries
+    extension records (apk: APK-TOOLS.checksum.SHA1 on every regular file) as an extension member – header named
+    <dir>/PaxHeaders.0/<file>, type 'x', body = the records `<len> <key>=<value>\n` with a self-counting length –
+    followed by the ordinary member.  From that byte stream the independent reader recovers exactly the logical
+    members: every header field, every record (key and value, in order), every body -/
+theorem pax_roundtrip (ms : List Tar.PMember) (hm : ∀ m ∈ ms, PaxOK m) : Tar.paxRead (Tar.paxArchive ms) = some ms := by
+  unfold Tar.paxRead Tar.paxArchive
+  have hraw : ∀ r ∈ ms.flatMap Tar.expand, Tar.MemberOK r := by
+    intro r hr
+    obtain ⟨m, hmm, hrm⟩ := List.mem_flatMap.mp hr
+    have ok := hm m hmm
+    unfold Tar.expand at hrm
+    split at hrm
+    · simp only [List.mem_singleton] at hrm; subst hrm; exact ok.main
+    · simp only [List.mem_cons, List.mem_nil_iff, or_false] at hrm
+      rcases hrm with rfl | rfl
+      · exact Tar.xMember_ok _ _ ok.main.hdr.nameNul ok.recordsFit
+      · exact ok.main
+  rw [Tar.read_archive _ hraw]
+  exact Tar.collapse_expand ms (fun m h => (hm m h).logical)
+
+/-- the self-counting length prefix of every extension record is the length of the whole record -/
+theorem pax_record_length (k v : Bytes) :
+    ∃ N, Tar.paxRecord k v = natToDec N ++ [32] ++ k ++ [61] ++ v ++ [10] ∧ (Tar.paxRecord k v).length = N := by
+  obtain ⟨N, h, hN⟩ := Tar.paxRecord_spec k v
+  refine ⟨N, h, ?_⟩
+  rw [h]; simp only [List.length_append, List.length_cons, List.length_nil]; omega
+
+/-- non-vacuity: a file with a checksum record under a directory; the length prefix 9 → 10 adjustment -/
+example : Tar.paxRead (Tar.paxArchive
+    [{ hdr := { flavor := .ustar, name := b!"usr/", mode := 0o755, typeflag := 53 }, body := [] },
+     { hdr := { flavor := .ustar, name := b!"usr/x", mode := 0o644, size := 2 }, pax := [(b!"APK-TOOLS.checksum.SHA1", b!"da39")], body := b!"hi" }])
+    = some [{ hdr := { flavor := .ustar, name := b!"usr/", mode := 0o755, typeflag := 53 }, body := [] },
+     { hdr := { flavor := .ustar, name := b!"usr/x", mode := 0o644, size := 2 }, pax := [(b!"APK-TOOLS.checksum.SHA1", b!"da39")], body := b!"hi" }] := by
+  decide +kernel
+example : Tar.paxRecord (b!"abc") (b!"de") = b!"9 abc=de" ++ [10] ∧ Tar.paxRecord (b!"abc") (b!"def") = b!"11 abc=def" ++ [10] := by decide
+example : Tar.xName (b!"usr/bin/tool") = b!"usr/bin/PaxHeaders.0/tool" ∧ Tar.xName (b!"top") = b!"PaxHeaders.0/top" := by decide
+
 /-- a payload member of the C01 model as a tar member (deb and ipk write uid = gid = 0 and the names) -/
 def toTar (m : Member) (body : Bytes) : Tar.Member :=
   { hdr := { name := m.name, mode := m.mode, size := body.length, mtime := m.mtime.toNat, typeflag := m.kind,
@@ -236,6 +283,34 @@ theorem data_tar_reads_back_model_members (ms : List (Member × Bytes))
   intro m hmem
   obtain ⟨p, hp, rfl⟩ := List.mem_map.mp hmem
   exact hm p hp
+
+/-- an apk data-segment item of the C03 model (member, body, checksum record) as a logical tar member -/
+def apkToPax (it : Member × Bytes × Option Bytes) : Tar.PMember :=
+  { hdr := { flavor := .ustar, name := it.1.name, mode := it.1.mode, size := it.2.1.length, mtime := it.1.mtime.toNat,
+             typeflag := it.1.kind, linkname := it.1.link, uname := it.1.uname, gname := it.1.gname },
+    pax := match it.2.2 with | some h => [(b!"APK-TOOLS.checksum.SHA1", h)] | none => [],
+    body := it.2.1 }
+
+/-- **what a tar reader gets from an apk data stream is the item list of the C03 model, checksum records included**:
+    the stream rendered for the items `apkData` computes from a plan – each regular file and symlink preceded by
+    its extension member carrying `APK-TOOLS.checksum.SHA1=<hex SHA-1 of the bytes stored in the member>` – reads
+    back as exactly those items: name, type, mode, owner, group, time, size, link target, record and body -/
+theorem apk_data_reads_back_model_items (H : Hashes) (fs : Bytes → Bytes) (plan : List Content)
+    (hm : ∀ it ∈ apkData H fs plan, PaxOK (apkToPax it)) :
+    Tar.paxRead (Tar.paxArchive ((apkData H fs plan).map apkToPax)) = some ((apkData H fs plan).map apkToPax)
+    ∧ ∀ c ∈ plan, isDirType c.type = false →
+        (apkToPax (apkStep H fs c).1).pax = [(b!"APK-TOOLS.checksum.SHA1", hexOf (H.sha1 (apkToPax (apkStep H fs c).1).body))] := by
+  constructor
+  · apply pax_roundtrip
+    intro m hmem
+    obtain ⟨it, hit, rfl⟩ := List.mem_map.mp hmem
+    exact hm it hit
+  · intro c _ hd
+    unfold apkStep apkToPax
+    simp only [hd, Bool.false_eq_true, if_false]
+    by_cases hs : c.type = T.symlink
+    · rw [if_pos hs]
+    · rw [if_neg hs]
 
 /-- **archlinux**: payload first, then .PKGINFO, .MTREE, and .INSTALL iff scripts exist -/
 theorem arch_member_order (payload : List Bytes) (hasScripts : Bool) :
